@@ -31,16 +31,16 @@ def Allowed : Stop → Prop
   | .acceptShape => True
 
 theorem safe_fromParseError {env : Env} {I : List Char} (hE : EnvOk env I) {e : ParseErr} (he : GoodErr I e) :
-    Safe env (fromParseError e) (fun _ => True) := by
+    Safe env (fromParseError e) (DiagLc env) := by
   unfold fromParseError
   cases e with
-  | invalidToken l => exact Safe.bind _ (safe_mkRange hE he he) (fun _ _ => Safe.pure _ _ trivial)
-  | unrecognizedEof l ex => exact Safe.bind _ (safe_mkRange hE he he) (fun _ _ => Safe.pure _ _ trivial)
-  | unrecognizedToken t ex => exact Safe.bind _ (safe_mkRange hE he.1 he.2) (fun _ _ => Safe.pure _ _ trivial)
-  | extraToken t => exact Safe.bind _ (safe_mkRange hE he.1 he.2) (fun _ _ => Safe.pure _ _ trivial)
+  | invalidToken l => exact Safe.bind _ (safe_mkRange hE he he) (fun _ hr => Safe.pure _ _ (diagLc_mk hr _ _ _ _))
+  | unrecognizedEof l ex => exact Safe.bind _ (safe_mkRange hE he he) (fun _ hr => Safe.pure _ _ (diagLc_mk hr _ _ _ _))
+  | unrecognizedToken t ex => exact Safe.bind _ (safe_mkRange hE he.1 he.2) (fun _ hr => Safe.pure _ _ (diagLc_mk hr _ _ _ _))
+  | extraToken t => exact Safe.bind _ (safe_mkRange hE he.1 he.2) (fun _ hr => Safe.pure _ _ (diagLc_mk hr _ _ _ _))
 
 theorem finishE_allowed {env : Env} {I : List Char} (hE : EnvOk env I) (id : String) (s : St) (o : Outcome)
-    (ho : GoodOutcome I o) (st : Stop) (h : finishE env id s o = .error st) : Allowed st := by
+    (ho : GoodOutcome env I o) (hd : DiagsLc env s.diags) (st : Stop) (h : finishE env id s o = .error st) : Allowed st := by
   unfold finishE at h
   cases o with
   | panic m => exact ho.elim
@@ -54,11 +54,42 @@ theorem finishE_allowed {env : Env} {I : List Char} (hE : EnvOk env I) (id : Str
     · cases h; trivial
   | error e =>
     dsimp only at h
-    have := safe_fromParseError hE ho s.diags
+    have := safe_fromParseError hE ho s.diags hd
     revert this
     cases hr : (ReaderT.run (fromParseError e) env).run s.diags with
     | error m => intro hm; rw [hr] at h; cases h; exact hm
     | ok x => intro _; rw [hr] at h; cases h
+
+/-- what `finishE` returns: every diagnostic of the result is good -/
+theorem finishE_diags {env : Env} {I : List Char} (hE : EnvOk env I) (id : String) (s : St) (o : Outcome)
+    (ho : GoodOutcome env I o) (hd : DiagsLc env s.diags) (r : FileResult) (h : finishE env id s o = .ok r) :
+    DiagsLc env r.diags := by
+  unfold finishE at h
+  cases o with
+  | panic m => cases h
+  | actionPanic p => cases h
+  | fuelOut => cases h
+  | accept v =>
+    dsimp only at h
+    split at h
+    · cases h; exact hd
+    · cases h; exact hd
+    · cases h
+  | error e =>
+    dsimp only at h
+    have := safe_fromParseError hE ho s.diags hd
+    revert this
+    cases hr : (ReaderT.run (fromParseError e) env).run s.diags with
+    | error m => intro _; rw [hr] at h; cases h
+    | ok x =>
+      obtain ⟨d, ds'⟩ := x
+      intro hh
+      rw [hr] at h
+      cases h
+      intro y hy
+      rcases List.mem_append.mp hy with h1 | h1
+      · exact hh.2 y h1
+      · simp only [List.mem_cons, List.mem_nil_iff, or_false] at h1; rw [h1]; exact hh.1
 
 /-- **For every table with an accepted certificate, every text and every environment that knows the
     text's character boundaries**: `add_content` returns, or stops for an allowed reason. -/
@@ -66,7 +97,7 @@ theorem addContent_stops_gen (T : Tables) (C : Cert) (hC : C.ok T = true) (env :
     (hE : EnvOk env text.toList) (st : Stop) (h : addContentE T env id text = .error st) : Allowed st := by
   unfold addContentE at h
   have ho := parse_outcome_good T C env (certFacts T C hC) text.toList (actionsSafe T env text.toList hE) (parseFuel text)
-  exact finishE_allowed hE id _ _ ho st h
+  exact finishE_allowed hE id _ _ ho (parse_diags_good T C env (certFacts T C hC) text.toList (actionsSafe T env text.toList hE) (parseFuel text)) st h
 
 /-- … instantiated with the tables and the certificate of THIS run -/
 theorem addContent_stops (env : Env) (id text : String) (hE : EnvOk env text.toList) (st : Stop)
@@ -100,6 +131,58 @@ theorem parse_error_on_boundaries_gen (T : Tables) (C : Cert) (hC : C.ok T = tru
 theorem parse_error_on_boundaries (env : Env) (text : String) (hE : EnvOk env text.toList) (fuel : Nat) (e : ParseErr)
     (h : (parseLoop Driver.Parse.tables env { input := text.toList } fuel).2 = .error e) : GoodErr text.toList e :=
   parse_error_on_boundaries_gen Driver.Parse.tables cert cert_ok env text hE fuel e h
+
+/-- **Every position stored in a returned tree is good (C04), for every text**: its offset is a
+    character boundary of the text and its line and column are what the lookup assigns to that
+    offset — for the package, the imports, the item, every member, argument, direction and every
+    type node at any depth (`AidlGood`). -/
+theorem tree_positions_good_gen (T : Tables) (C : Cert) (hC : C.ok T = true) (env : Env) (id text : String)
+    (hE : EnvOk env text.toList) (r : FileResult) (a : AidlFile)
+    (h : addContentE T env id text = .ok r) (ha : r.ast = some a) : AidlGood env text.toList a := by
+  unfold addContentE at h
+  have ho := parse_outcome_good T C env (certFacts T C hC) text.toList (actionsSafe T env text.toList hE) (parseFuel text)
+  revert h ho
+  generalize parseLoop T env { input := text.toList } (parseFuel text) = p
+  obtain ⟨s, o⟩ := p
+  intro h ho
+  dsimp only at h ho
+  unfold finishE at h
+  cases o with
+  | panic m => cases h
+  | actionPanic p => cases h
+  | fuelOut => cases h
+  | accept v =>
+    dsimp only at h
+    split at h
+    · cases h; cases ha
+    · rename_i a'
+      cases h
+      cases ha
+      exact ho
+    · cases h
+  | error e =>
+    dsimp only at h
+    split at h
+    · cases h
+    · cases h; cases ha
+
+theorem tree_positions_good (env : Env) (id text : String) (hE : EnvOk env text.toList) (r : FileResult) (a : AidlFile)
+    (h : addContentE Driver.Parse.tables env id text = .ok r) (ha : r.ast = some a) : AidlGood env text.toList a :=
+  tree_positions_good_gen Driver.Parse.tables cert cert_ok env id text hE r a h ha
+
+/-- **Every position stored in a diagnostic of the result is one the lookup accepts, with its line and
+    column (C04), for every text** — the diagnostics pushed by the error-recovery actions, by the
+    transact-code check and the one made from a parse error. -/
+theorem diag_positions_good_gen (T : Tables) (C : Cert) (hC : C.ok T = true) (env : Env) (id text : String)
+    (hE : EnvOk env text.toList) (r : FileResult) (h : addContentE T env id text = .ok r) : DiagsLc env r.diags := by
+  unfold addContentE at h
+  have ho := parse_outcome_good T C env (certFacts T C hC) text.toList (actionsSafe T env text.toList hE) (parseFuel text)
+  have hd := parse_diags_good T C env (certFacts T C hC) text.toList (actionsSafe T env text.toList hE) (parseFuel text)
+  exact finishE_diags hE id _ _ ho hd r h
+
+theorem diag_positions_good (env : Env) (id text : String) (hE : EnvOk env text.toList) (r : FileResult)
+    (h : addContentE Driver.Parse.tables env id text = .ok r) : DiagsLc env r.diags :=
+  diag_positions_good_gen Driver.Parse.tables cert cert_ok env id text hE r h
 
 /-- non-vacuity of `EnvOk`: the lookup that knows exactly the boundaries of a text -/
 def envOf (text : String) : Env :=
